@@ -8,7 +8,10 @@ def _pv(pv):
     out = []
     try:
         for item in pv:
-            out.append((item.type, item.cssText))
+            t, txt = item.type, item.cssText
+            if t in ('DIMENSION', 'NUMBER') and txt == '0':
+                t = 'ZERO'       # zero lengths are written without unit by design (C18)
+            out.append((t, txt))
     except Exception:
         out.append(('?', pv.cssText))
     return out
